@@ -422,7 +422,36 @@ def sibling_anchors():
     return out
 
 
+def nested_name_anchors():
+    """Deterministic documents, checked on every run: the name of a reference is itself spelled with a reference
+    (%(s%(i1)s)s -> %(s2)s -> value of s2); the composed name is defined in another layer than the parts."""
+    out = []
+    for platform in ("default", "P"):
+        for where, target in (("c", "dg"), ("dg", "c"), ("ds", "pg" if platform == "P" else "dg"), ("c", "c")):
+            base = {"nstages": 1, "opts": {"command.arguments": {"c": "run %(s%(i1)s)s"}}, "plat_none": False,
+                    "platform": platform, "sibling": False, "stage": 0, "user": "none", "active": "same", "warm": []}
+            out.append(dict(base, vars={"s0": {where: "%(s%(i1)s)s-x"}, "i1": {"dg": 2}, "s2": {target: target + "2"}}))
+            out.append(dict(base, vars={"s0": {where: "a/%(s%(i1)s)s/%(s2)s"}, "i1": {target: "2"},
+                                        "s2": {"dg": "dg2"}}))
+    return out
+
+
 def shard(ctx: Ctx):
+    for idx, case in enumerate(nested_name_anchors()):
+        if idx % ctx.nshards != ctx.shard or ctx.stop:
+            continue
+        for sub, fn in (("concrete", check_concrete), ("package", check_package)):
+            ctx.rec.evaluations += 1
+            try:
+                fn(case, ctx)
+            except Violation as v:
+                if v.sig in ctx.excluded:
+                    ctx.rec.excluded[v.sig] += 1
+                    continue
+                v.case, v.sub = case, sub
+                ctx.rec.violations.append(v.to_dict())
+                ctx.stop = True
+                return
     for idx, case in enumerate(sibling_anchors()):
         if idx % ctx.nshards != ctx.shard or ctx.stop:
             continue
